@@ -213,6 +213,89 @@ example : (runHistoryY exFs {} exHistY).map uidView =
       | some (ResultX.trees (.ok ts)) => ts.all fun p => TT.Spec.uidsOK p.2
       | _ => false) = true := by decide +kernel
 
+/-! ### wave 19 (P9): a reader call that SUCCEEDS also draws ids for nodes it does not deliver
+
+  The TIGER-XML reader creates all nodes of a sentence and then skips it when it has several roots / a cycle / two
+  incoming edges (`treeinput.tigerxml`): the call succeeds, the ids are gone.  `CallX.read (.ok ts) drawn` and
+  `CallY.readTrans (.ok ts) drawn steps waste` now move the counter by `drawn` as well (added behind the delivered
+  sentences; see `CallX.run`).  The history theorems above hold unchanged; below, the counter itself: what a call draws
+  does not depend on the history, and the renamings `+ k_i` of the history theorem are the running sums of what the
+  calls draw in a fresh process - skipped sentences included. -/
+
+/-- the counter after a reader call that succeeds: the nodes delivered, then the ids of the skipped sentences -/
+theorem read_ok_counter (fs : Str → Option Str) (st : ProcStateX) (ts : List (Nat × Tree)) (drawn : Nat) :
+    ((CallX.read (.ok ts) drawn).run fs st).2.nextId = (stampAll st.nextId ts).2 + drawn := rfl
+
+/-- the number of ids a call draws does not depend on the history (`CallX`) -/
+theorem callX_draws_independent (fs : Str → Option Str) (st : ProcStateX) (c : CallX) :
+    (c.run fs st).2.nextId = st.nextId + (c.run fs {}).2.nextId := by
+  cases c with
+  | base c => simp [CallX.run]
+  | read src drawn =>
+    cases src with
+    | error e => simp [CallX.run]
+    | ok ts =>
+      show (stampAll st.nextId ts).2 + drawn = st.nextId + ((stampAll 0 ts).2 + drawn)
+      rw [stampAll_zero ts st.nextId]
+      show (stampAll 0 ts).2 + st.nextId + drawn = _
+      omega
+
+/-- the number of ids a call draws does not depend on the history (`CallY`, transformations that do not look at ids) -/
+theorem callY_draws_independent (fs : Str → Option Str) (st : ProcStateX) (c : CallY) (hb : c.Blind) :
+    (c.run fs st).2.nextId = st.nextId + (c.run fs {}).2.nextId := by
+  cases c with
+  | old c => exact callX_draws_independent fs st c
+  | readTrans src drawn steps waste =>
+    cases src with
+    | error e => simp [CallY.run]
+    | ok ts =>
+      show (readTransAll steps st.nextId ts).2 + drawn + waste = st.nextId + ((readTransAll steps 0 ts).2 + drawn + waste)
+      rw [readTransAll_zero steps hb ts st.nextId]
+      show (readTransAll steps 0 ts).2 + st.nextId + drawn + waste = _
+      omega
+
+/-- the ids drawn before each call of a history: running sums of what the calls draw in a fresh process -/
+def offsetsY (fs : Str → Option Str) : Nat → List CallY → List Nat
+  | _, [] => []
+  | k, c :: cs => k :: offsetsY fs (k + (c.run fs {}).2.nextId) cs
+
+theorem historyY_offsets_from (fs : Str → Option Str) (cs : List CallY) (hb : ∀ c ∈ cs, c.Blind) :
+    ∀ st : ProcStateX, StateOK fs st.base →
+      runHistoryY fs st cs = List.zipWith (fun c k => ((c.run fs {}).1).rename (· + k)) cs (offsetsY fs st.nextId cs) := by
+  induction cs with
+  | nil => intro st _; rfl
+  | cons c cs ih =>
+    intro st h
+    obtain ⟨h1, h2⟩ := callY_history_independent fs st c (hb c (by simp)) h
+    have h3 := callY_draws_independent fs st c (hb c (by simp))
+    have hk := ih (fun d hd => hb d (by simp [hd])) (c.run fs st).2 h2
+    simp only [runHistoryY, offsetsY, List.zipWith_cons_cons]
+    rw [h1, hk, h3]
+
+/-- MAIN (wave 19): `historyY_independent` with the renamings named: the i-th call returns what it returns in a fresh
+    process with every node id moved up by the ids ALL earlier calls have drawn - delivered nodes, nodes of failed
+    readers, nodes of skipped sentences, nodes the transformations threw away -/
+theorem historyY_offsets (fs : Str → Option Str) (cs : List CallY) (hb : ∀ c ∈ cs, c.Blind) :
+    runHistoryY fs {} cs = List.zipWith (fun c k => ((c.run fs {}).1).rename (· + k)) cs (offsetsY fs 0 cs) :=
+  historyY_offsets_from fs cs hb {} (stateOK_init fs)
+
+/-- the witness of wave 19: a file whose first sentence (3 nodes, two roots) is skipped and whose second sentence
+    (3 nodes) is delivered, read twice, then a probe.  Implementation: `2:3,4,5 # 2:9,10,11 # next=12`; model: the same
+    counter after every call (6, 12), the delivered blocks of a call packed at its start -/
+def exSkip : List CallY :=
+  [.old (.read (.ok [(2, .node { label := "S".toList } [L 1 "A", L 2 "B"])]) 3),
+   .old (.read (.ok [(2, .node { label := "S".toList } [L 1 "A", L 2 "B"])]) 3),
+   .old (.read (.ok [(0, L 1 "probe")]) 0)]
+
+example : runHistoryY exFs {} exSkip =
+    List.zipWith (fun c k => ((c.run exFs {}).1).rename (· + k)) exSkip (offsetsY exFs 0 exSkip) :=
+  historyY_offsets exFs exSkip (by intro c hc; simp only [exSkip, List.mem_cons, List.not_mem_nil, or_false] at hc; rcases hc with rfl | rfl | rfl <;> trivial)
+
+example : (runHistoryY exFs {} exSkip).map uidView = [some [[0, 1, 2]], some [[6, 7, 8]], some [[12]]] ∧
+    offsetsY exFs 0 exSkip = [0, 6, 12] := by decide +kernel
+
+example : offsetsY exFs 0 exHistY = [0, 12, 20, 22, 35] := by decide +kernel
+
 /-- a transformation that READS an id (it writes the root's id into the label) is not `Blind`, and for it the history
     theorem fails: the second call returns another LABEL than in a fresh process — the hypothesis cannot be dropped -/
 def peek (t : Tree) : Except Err Tree :=
